@@ -128,6 +128,8 @@ type Exec struct {
 	conSig     *types.Signature
 	globalInit map[string]bool
 	rootCon    *Contract
+	callSeen   map[string]int
+	inGhost    int
 }
 
 type inlineFrame struct {
